@@ -14,6 +14,7 @@
    exactly those shapes.  Equal.current_fixes names the variant that the
    correspondence check ties to the code. *)
 From Stackage Require Import Base Generated StackImpl Values EqualBase EqualSpec EqualSpecCorr Equal EqualProofs.
+From Stackage Require DerefTie.
 Open Scope Z_scope.
 
 (* For EVERY receiver x (initialised Stack or Condition) and EVERY argument y
@@ -171,3 +172,17 @@ Proof.
   apply (GM_seq_elem _ _ 5 [GInt 0 1] (GInt 0 2) (GInt 0 9) [GInt 0 3] 5 [GInt 0 3]); try reflexivity.
   apply GM_prim; reflexivity.
 Qed.
+
+(* "a pointer to one at any depth": the model's pointer chase (gunder) is the
+   loop of derefPtr in misc.go, iteration by iteration (Generated.g_derefPtr_body
+   is regenerated from /repo), and reaches the value behind n pointers for every n *)
+Theorem c05_pointer_chase_is_the_source_loop :
+  (forall g : gval,
+     gunder g =
+     match Generated.g_derefPtr_body (DerefTie.is_ptr g) with
+     | TCut 0 _ _ => match g with GPtr x => gunder x | _ => None end
+     | _ => Some g
+     end) /\
+  (forall (n : nat) (g : gval), DerefTie.is_ptr g = false -> gunder (DerefTie.ptrs n g) = Some g).
+Proof. split; [exact DerefTie.gunder_iteration|exact DerefTie.gunder_any_depth]. Qed.
+Print Assumptions c05_pointer_chase_is_the_source_loop.
